@@ -30,21 +30,19 @@ SPEC = dict(
         "one element per read: the scripted server waits for the client to become quiescent after every element",
     ],
     assumptions=[
-        "H1 (named hypothesis of the _partial theorem): every stream header received on an unencrypted link carries a version - false for a hostile/old server, see C04_defect_versionless_header",
-        "H2 (named hypothesis): no <iq type=get|set> arrives on an unencrypted link - false for a hostile server, see C04_defect_iq_answered_in_clear",
-        "H3 (scope): the application itself does not send requests before the session exists and calls connectToServer only while disconnected "
-        "(calling it on a live TLS link makes QSslSocket::connectToHost reset the socket to plaintext mode - observed, outside the property)",
+        "scope (the only hypothesis of the theorem, application side): the application itself does not send requests before the session exists "
+        "and calls connectToServer only while disconnected (calling it on a live TLS link makes QSslSocket::connectToHost reset the socket "
+        "to plaintext mode - observed, outside the property, which quantifies over servers)",
         "QSslSocket::supportsSsl() is true in this environment: the localTls=false branch of the model is proved but not exercised on the implementation",
         "mechanism selection is abstracted to {PLAIN, SCRAM-SHA-1, HT-SHA-256-NONE, unsupported} (full ranking: C05); SM counters/acks: C09; framing: C03",
     ],
-    level_text="Theorem over all scripts of any length: with TLS required, under H1-H3 nothing but stream open/starttls/stream close is "
-               "ever written to an unencrypted wire (invariant proof over the model's step function), plus 'TLS unavailable => stream "
-               "close, disconnected' for every reachable waiting state; two machine-checked defect theorems with explicit witness "
-               "scripts show the unconditional statement is false on today's code, and both witnesses are replayed on the real "
-               "client where the password digest / an IQ answer are read in clear by the server side.",
+    level_text="Theorem over ALL server scripts of any length: with TLS required nothing but stream open/starttls/stream close is ever "
+               "written to an unencrypted wire (invariant proof over the model's step function; no hypothesis about the server), hence no "
+               "password, digest or token; plus 'TLS unavailable => stream close, disconnected' for every reachable waiting state, "
+               "'version-less header => give up' and 'IQ request before TLS => rejected' for every configuration. The two scripts that used to "
+               "leak (fixed by e0bbad9 and fa0779c) are replayed first on the real client.",
     level_note="Proved about the hand-written model; the model-to-code tie is differential (exhaustive to depth 3/4 over a reduced "
-               "alphabet, random beyond). The unconditional property does NOT hold (two recorded findings); the proved statement is the "
-               "partial one with H1/H2 named.",
+               "alphabet, random beyond) plus a byte-level oracle on the server side of a real TLS-capable loopback connection.",
     design_ref="5.4",
     technique="Lean 4 invariant proof over all event scripts + model/implementation correspondence against a scripted TLS server",
 )
